@@ -46,7 +46,8 @@ func ruleMaven(p *Prog, r *Report) {
 			r.Und("R-MAVEN-RANK", key, pos, "Compare's position-wise loop: "+oof)
 		} else {
 			isNumK, intK, strK, presK := "", "", "", "present:"+seq
-			for k, ti := range c.terms {
+			for _, k := range c.termKeys() {
+				ti := c.terms[k]
 				if !strings.HasPrefix(k, seq+"[i].") || len(ti.base) != 0 {
 					continue
 				}
@@ -252,7 +253,8 @@ func ruleMaven(p *Prog, r *Report) {
 			var bad []string
 			seen := map[string]bool{}
 			lowerKey := ""
-			for k, ti := range c.terms {
+			for _, k := range c.termKeys() {
+				ti := c.terms[k]
 				if strings.HasPrefix(k, "ToLower(") && len(ti.base) == 1 {
 					lowerKey = k
 				}
